@@ -24,7 +24,7 @@ class C31(Prop):
         "WorkflowTimedOutEvent(timeout=T) was published at virtual time T and its active_steps contain every step strictly in flight at T "
         "and only steps in flight or starting/finishing exactly at T; cancel_run on a live run ends it with WorkflowCancelledByUser after "
         "a WorkflowCancelledEvent, no step body is entered at a later virtual time, ctx.to_dict() then succeeds, survives JSON, and a "
-        "fresh workflow instance resumed from it runs to a result once the harness sends the finishing event, re-entering every "
+        "fresh workflow instance resumed from it runs to a result once the harness sends the finishing event (optionally the resumed run is cancelled in turn at a generated instant, serialized and resumed once more), re-entering every "
         "invocation that was queued or running. Non-trivial = the timeout or the cancel arrived while at least one step body was in flight "
         "or a retry back-off was pending."
     )
@@ -33,7 +33,7 @@ class C31(Prop):
         "events at exactly the instant T (or the cancel instant) may legitimately go either way; only strict inequalities are asserted",
         "after a cancel the harness resumes with Context.from_dict on a fresh instance and ends the run with its finishing event",
     ]
-    budgets = {"quick": 2500, "thorough": 8000}
+    budgets = {"quick": 1500, "thorough": 8000}
     wall = {"quick": 60.0, "thorough": 900.0}
 
     def setup(self):
@@ -57,6 +57,9 @@ class C31(Prop):
                 spec["timeout"] = draw(st.sampled_from([0.5, 1, 1.25, 1.5, 2, 2.25, 2.5, 3, 3.25, 3.5, 4.25, 4.5, 5, 5.25, 6.5, 8, 8.25, 10.5, 13, 21]))
             if mode in ("cancel", "both"):
                 spec["ext"].append([draw(st.sampled_from([0, 0.5, 1, 1.5, 2, 2.5, 3, 3.5, 4.5, 5, 6.5, 8, 11.5, 15])), "cancel"])
+            if mode in ("cancel", "both", "rel_cancel"):
+                # the resumed run may be cancelled in turn (this many seconds after the resume), serialized and resumed once more
+                spec["cancel2"] = draw(st.sampled_from([None, None, None, 0.25, 0.5, 1, 2, 3.5]))
             return spec
 
         return case()
@@ -102,39 +105,66 @@ class C31(Prop):
                 life2["json_error"] = repr(e)[:160]
                 return
             life2["snapshot"] = d
+            life2["stream_mark"] = len(rec.stream)
             rec.segment += 1
             n_inv0 = len(rec.inv)
             spec2 = dict(spec, timeout=None)
-            try:
-                wf = genwf.build_workflow(spec2, runtime=genwf.make_runtime())
-                ctx2 = m["Context"].from_dict(wf, d)
-                handler = wf.run(ctx=ctx2)
-            except Exception as e:  # noqa: BLE001
-                life2["resume_error"] = repr(e)[:160]
-                return
-            rec.handler = handler
-            consumer = asyncio.create_task(genwf.consume_stream(rec, handler))
-            t0 = VClock.t
             settle = genwf.fin_time(spec)
-            await asyncio.wait({handler._result_task}, timeout=settle)
-            if not handler._result_task.done():
+
+            async def resume_life(snapshot, info, cancel_after=None):
                 try:
-                    handler.ctx.send_event(rec.mk("Fin", "ext"))
+                    wf = genwf.build_workflow(spec2, runtime=genwf.make_runtime())
+                    ctx2 = m["Context"].from_dict(wf, snapshot)
+                    handler = wf.run(ctx=ctx2)
                 except Exception as e:  # noqa: BLE001
-                    life2["fin_rejected"] = repr(e)[:120]
-                await asyncio.wait({handler._result_task}, timeout=settle)
-            life2["outcome"] = genwf.classify_outcome(rec, handler)
+                    info["resume_error"] = repr(e)[:160]
+                    return None
+                rec.handler = handler
+                consumer = asyncio.create_task(genwf.consume_stream(rec, handler))
+                info["t0"] = VClock.t
+                if cancel_after is not None:
+                    await asyncio.wait({handler._result_task}, timeout=cancel_after)
+                    if not handler._result_task.done():
+                        info["cancel2_at"] = VClock.t
+                        await handler.cancel_run(timeout=1e9)
+                else:
+                    await asyncio.wait({handler._result_task}, timeout=settle)
+                    if not handler._result_task.done():
+                        try:
+                            handler.ctx.send_event(rec.mk("Fin", "ext"))
+                        except Exception as e:  # noqa: BLE001
+                            info["fin_rejected"] = repr(e)[:120]
+                        await asyncio.wait({handler._result_task}, timeout=settle)
+                info["outcome"] = genwf.classify_outcome(rec, handler)
+                await asyncio.wait({consumer}, timeout=5.0)
+                if not consumer.done():
+                    consumer.cancel()
+                if not handler._result_task.done():
+                    try:
+                        handler._external_adapter.abort()
+                    except Exception:  # noqa: BLE001
+                        pass
+                await asyncio.gather(consumer, handler._result_task, return_exceptions=True)
+                return handler
+
+            h2 = await resume_life(d, life2, cancel_after=spec.get("cancel2"))
             life2["inv"] = rec.inv[n_inv0:]
-            life2["t0"] = t0
-            await asyncio.wait({consumer}, timeout=5.0)
-            if not consumer.done():
-                consumer.cancel()
-            if not handler._result_task.done():
-                try:
-                    handler._external_adapter.abort()
-                except Exception:  # noqa: BLE001
+            if h2 is None or "cancel2_at" not in life2:
+                if h2 is not None and spec.get("cancel2") is not None and life2["outcome"]["kind"] == "unfinished":
                     pass
-            await asyncio.gather(consumer, handler._result_task, return_exceptions=True)
+                return
+            if life2["outcome"]["kind"] != "cancelled":
+                return
+            # ---- the resumed run was cancelled in turn: serialize and resume once more
+            life3: dict = {}
+            life2["life3"] = life3
+            try:
+                d3 = json.loads(json.dumps(h2.ctx.to_dict()))
+            except Exception as e:  # noqa: BLE001
+                life3["to_dict_error"] = repr(e)[:160]
+                return
+            rec.segment += 1
+            await resume_life(d3, life3)
 
         try:
             boot.run_virtual(main)
@@ -173,7 +203,9 @@ class C31(Prop):
             return False
 
         timed = [(t, e) for t, e in rec.stream if type(e).__name__ == "WorkflowTimedOutEvent"]
-        cancelled_ev = [(t, e) for t, e in rec.stream if type(e).__name__ == "WorkflowCancelledEvent"]
+        mark = life2.get("stream_mark", len(rec.stream))
+        cancelled_ev = [(t, e) for t, e in rec.stream[:mark] if type(e).__name__ == "WorkflowCancelledEvent"]
+        cancelled_ev2 = [(t, e) for t, e in rec.stream[mark:] if type(e).__name__ == "WorkflowCancelledEvent"]
         # ------------------------------------------------------------ timeout clauses
         first_end = min([x for x in (T, tc) if x is not None], default=None)
         stops = [i["t_out"] for i in inv0 if i.get("out_type") == "GStop" and i["exit"] == "returned"]
@@ -230,7 +262,27 @@ class C31(Prop):
             else:
                 o2 = life2.get("outcome", {"kind": "missing"})
                 pend_backoff = backoff_at(tc) if tc is not None else False
-                if o2["kind"] != "result":
+                if "cancel2_at" in life2:
+                    # the resumed run was cancelled again: same obligations for that cancel
+                    r.classes.append("resumed_run_cancelled_again")
+                    life3 = life2.get("life3")
+                    failing = self._may_fail(spec)
+                    if o2["kind"] != "cancelled":
+                        if not (o2["kind"] in ("result", "failed")):  # the run may legitimately have ended at the cancel instant
+                            r.v("cancel_ignored", outcome=o2["kind"], second_cancel=True)
+                    elif len(cancelled_ev2) != 1:
+                        r.v("cancelled_event_count", n=len(cancelled_ev2), second_cancel=True)
+                    elif "to_dict_error" in life3:
+                        r.v("to_dict_failed_after_cancel", error=life3["to_dict_error"], second_cancel=True)
+                    elif "resume_error" in life3:
+                        r.v("resume_failed_after_cancel", error=life3["resume_error"], second_cancel=True)
+                    else:
+                        o3 = life3.get("outcome", {"kind": "missing"})
+                        if o3["kind"] != "result" and not (o3["kind"] == "failed" and failing):
+                            r.v("resumed_after_cancel_did_not_complete", outcome=o3["kind"], exc=repr(o3.get("exc"))[:100], second_cancel=True)
+                        elif o3["kind"] == "result":
+                            r.classes.append("resumed_twice_to_result")
+                elif o2["kind"] != "result":
                     failing = self._may_fail(spec)
                     if not (o2["kind"] == "failed" and failing):
                         r.v("resumed_after_cancel_did_not_complete", outcome=o2["kind"], exc=repr(o2.get("exc"))[:100], retry_backoff_pending=pend_backoff)
